@@ -120,7 +120,9 @@ def pred_C01(model, params, run):
 
 # ---- C02 ------------------------------------------------------------------------------------
 
-def contrib(model, st, t):
+def contrib(model, st, t, time=None):
+    """the documented contribution; "absent" is read from the absence lists (time given) —
+    not from the resource state, which is what a defect may get wrong"""
     tk = model["tasks"][t]
     name = tk["name"]
     if tk["isAuto"]:
@@ -128,13 +130,15 @@ def contrib(model, st, t):
 
     def wp(w):
         ws = model["workers"][w]
-        if not has_skill(ws["skills"], name) or st["wstate"][w] == ABSENCE:
+        absent = (st["wstate"][w] == ABSENCE) if time is None else (time in ws["absence"])
+        if not has_skill(ws["skills"], name) or absent:
             return Fr(0)
         return F(lookup(ws["skills"], name))
 
     def fp(f):
         fs = model["facs"][f]
-        if not has_skill(fs["skills"], name) or st["fstate"][f] == ABSENCE:
+        absent = (st["fstate"][f] == ABSENCE) if time is None else (time in fs["absence"])
+        if not has_skill(fs["skills"], name) or absent:
             return Fr(0)
         return F(lookup(fs["skills"], name))
 
@@ -155,7 +159,7 @@ def pred_C02(model, params, run):
             before, after = F(pre["rem"][t]), F(post["rem"][t])
             active = pre["tstate"][t] == WORKING and (working or (params["autoFlag"] and tk["isAuto"]))
             if active:
-                c = contrib(model, pre, t)
+                c = contrib(model, pre, t, time=(pre["time"] if working else None))
                 if before - after != c:
                     out.append(viol("C02", "remaining work did not decrease by the contribution", time=pre["time"], task=t,
                                     before=str(before), after=str(after), contribution=str(c)))
